@@ -10,8 +10,10 @@ Source of every range (transcribed once at the pinned commit, never imported fro
   [msg]   the validator's own operator-facing constraint message for that path
           ("t2.k_retrieval must be >= 1", "t2.ranking.alpha_sim must be in [0, 1]", "... (or null)")
   [dflt]  the inline default tables/comments of configs/validate.py (DEFAULTS block, "# [0,1]", "# >= 1")
-  [yaml]  configs/config.yaml (the shipped operator example; only source for the keys the validator does
-          not constrain: t1.decay, t1.edge_type_mult, t1.radius_cap, t2.tiers, t2.exact_recent_days, ...)
+  [yaml]  configs/config.yaml (the shipped operator example; only source for the keys no message constrains:
+          t1.decay, t1.edge_type_mult, t1.radius_cap, t2.tiers, t2.exact_recent_days, budgets.*, flags.* ...;
+          these rows are `soft`: the example fixes a type, but no documented rule rejects anything, so the
+          spec never demands a rejection there — an accepted value must still let the engine run)
   [m9]    docs/m9/overview.md (perf.parallel.*: max_workers "values <= 1 behave sequentially",
           "-3 normalizes to 0 by design")
   [m10]   docs/m10/reflection.md (t3.reflection.*, fixtures rule)
@@ -69,7 +71,7 @@ def _add(path, kind, src, **kw):
     assert sec in SEC_INDEX, path
     f = {"path": path, "kind": kind, "sec": sec, "src": src, "msg": kw.pop("msg", path),
          "lo": None, "hi": None, "lox": 0, "hix": 0, "nul": 0, "soft": 0, "ne": 0,
-         "mn": None, "mx": None, "md": None, "dflt": None, "enum": None, "normlo": None}
+         "mn": None, "mx": None, "md": None, "dflt": None, "enum": None, "normlo": None, "al": None}
     f.update(kw)
     FIELDS.append(f)
     return f
@@ -127,44 +129,44 @@ WD = "@WORK@"     # replaced by the run's scratch directory when a vector is con
 
 # ---- top level ------------------------------------------------------------------------------
 E("version", ["v1"], "v1", "[m13] must be 'v1' or omitted; [msg] version must be 'v1'")
-I("k_surface", None, None, 32, "[yaml] k_surface: 32 (int, no documented bound)", mn=1, mx=64, md=32)
+I("k_surface", None, None, 32, "[yaml] k_surface: 32 (int, no documented bound)", mn=1, mx=64, md=32, soft=1)
 E("surface_method", ["PCA", "TopK"], "PCA", "[yaml] surface_method: PCA; engine types Literal PCA|TopK", soft=1)
-I("budgets.time_ms", None, None, None, "[yaml] budgets.time_ms: 1000", mn=1, mx=100000, md=1000)
-I("budgets.ops", None, None, None, "[yaml] budgets.ops: 1000", mn=1, mx=100000, md=1000)
-I("budgets.tokens", None, None, None, "[yaml] budgets.tokens: 1024", mn=1, mx=100000, md=1024)
-I("budgets.time_ms_reflection", None, None, None, "[yaml] budgets.time_ms_reflection: 6000", mn=1, mx=100000, md=6000)
-B("flags.enable_world_memory", None, "[yaml] flags.enable_world_memory: false")
-B("flags.allow_reflection", None, "[yaml] flags.allow_reflection: false")
+I("budgets.time_ms", None, None, None, "[yaml] budgets.time_ms: 1000", mn=1, mx=100000, md=1000, soft=1)
+I("budgets.ops", None, None, None, "[yaml] budgets.ops: 1000", mn=1, mx=100000, md=1000, soft=1)
+I("budgets.tokens", None, None, None, "[yaml] budgets.tokens: 1024", mn=1, mx=100000, md=1024, soft=1)
+I("budgets.time_ms_reflection", None, None, None, "[yaml] budgets.time_ms_reflection: 6000", mn=1, mx=100000, md=6000, soft=1)
+B("flags.enable_world_memory", None, "[yaml] flags.enable_world_memory: false", soft=1)
+B("flags.allow_reflection", None, "[yaml] flags.allow_reflection: false", soft=1)
 # ---- t1 -------------------------------------------------------------------------------------
-B("t1.cache.enabled", None, "[yaml] t1.cache.enabled: true")
+B("t1.cache.enabled", None, "[yaml] t1.cache.enabled: true", soft=1)
 I("t1.cache.max_entries", 0, None, 512, "[msg] t1.cache.max_entries must be >= 0; [dflt] 512")
 I("t1.cache.ttl_s", 0, None, 300, "[msg] t1.cache.ttl_s must be >= 0; [dflt] 300")
-I("t1.cache.ttl_sec", 0, None, None, "[dflt] alias of ttl_s ('TTL alias precedence'); [msg] path t1.cache.ttl_s", msg="t1.cache.ttl_s")
+I("t1.cache.ttl_sec", 0, None, None, "[dflt] alias of ttl_s ('TTL alias precedence'); [msg] path t1.cache.ttl_s", msg="t1.cache.ttl_s", al="t1.cache.ttl_s")
 I("t1.iter_cap", 0, None, None, "[msg] t1.iter_cap must be >= 0; [yaml] 50", md=50)
 I("t1.queue_budget", 0, None, None, "[msg] t1.queue_budget must be >= 0; [yaml] 10000", mx=100000, md=10000)
 F("t1.node_budget", 0.0, None, None, "[msg] t1.node_budget must be > 0; [yaml] 1.5", lox=1, md=1.5)
-I("t1.radius_cap", None, None, None, "[yaml] t1.radius_cap: 4 (int, no documented bound)", mn=0, mx=64, md=4)
+I("t1.radius_cap", None, None, None, "[yaml] t1.radius_cap: 4 (int, no documented bound)", mn=0, mx=64, md=4, soft=1)
 E("t1.decay.mode", ["exp_floor", "attn_quad"], None, "[yaml] t1.decay.mode: exp_floor; stage doc attn_quad", soft=1)
-F("t1.decay.rate", None, None, None, "[yaml] t1.decay.rate: 0.6 (number, no documented bound)", mn=0.0, mx=1.0, md=0.6)
-F("t1.decay.floor", None, None, None, "[yaml] t1.decay.floor: 0.05 (number, no documented bound)", mn=0.0, mx=1.0, md=0.05)
+F("t1.decay.rate", None, None, None, "[yaml] t1.decay.rate: 0.6 (number, no documented bound)", mn=0.0, mx=1.0, md=0.6, soft=1)
+F("t1.decay.floor", None, None, None, "[yaml] t1.decay.floor: 0.05 (number, no documented bound)", mn=0.0, mx=1.0, md=0.05, soft=1)
 M("t1.edge_type_mult", None, None, "[yaml] t1.edge_type_mult: {supports: 1.0, associates: 0.6, contradicts: 0.8}",
-  mn={}, mx={"supports": 1.0, "associates": 0.6, "contradicts": 0.8, "mentions": 0.25}, md={"supports": 1.0, "associates": 0.5})
+  mn={}, mx={"supports": 1.0, "associates": 0.6, "contradicts": 0.8, "mentions": 0.25}, md={"supports": 1.0, "associates": 0.5}, soft=1)
 # ---- t2 -------------------------------------------------------------------------------------
 E("t2.backend", ["inmemory", "lancedb"], "inmemory", "[msg] t2.backend must be one of {inmemory,lancedb}")
 I("t2.k_retrieval", 1, None, 10, "[msg] t2.k_retrieval must be >= 1; [dflt] 10", md=64)
 F("t2.sim_threshold", -1.0, 1.0, 0.0, "[msg] t2.sim_threshold must be in [-1.0, 1.0]; [dflt] 0.0", md=0.3)
 L("t2.tiers", ["exact_semantic", "cluster_semantic", "archive"], None, "[yaml] t2.tiers: [exact_semantic, cluster_semantic, archive]",
-  restricted=0)
-I("t2.exact_recent_days", None, None, None, "[yaml] t2.exact_recent_days: 30 (int)", mn=0, mx=3650, md=30)
-I("t2.clusters_top_m", None, None, None, "[yaml] t2.clusters_top_m: 3 (int)", mn=1, mx=64, md=3)
+  restricted=0, soft=1)
+I("t2.exact_recent_days", None, None, None, "[yaml] t2.exact_recent_days: 30 (int)", mn=0, mx=3650, md=30, soft=1)
+I("t2.clusters_top_m", None, None, None, "[yaml] t2.clusters_top_m: 3 (int)", mn=1, mx=64, md=3, soft=1)
 E("t2.owner_scope", ["any", "agent", "world"], None, "[yaml] t2.owner_scope: any; operator-guide owner_scope", soft=1)
-I("t2.residual_cap_per_turn", None, None, None, "[yaml] t2.residual_cap_per_turn: 32 (int)", mn=0, mx=1000, md=32)
+I("t2.residual_cap_per_turn", None, None, None, "[yaml] t2.residual_cap_per_turn: 32 (int)", mn=0, mx=1000, md=32, soft=1)
 I("t2.reader_batch", 1, None, None, "[msg] t2.reader_batch must be >= 1", mx=100000, md=8192)
 S("t2.embed_root", None, "[msg] t2.embed_root must be a non-empty string path", mn=WD + "/e", md=WD + "/embed_root", mx=WD + "/" + "e" * 120)
-B("t2.cache.enabled", None, "[yaml] t2.cache.enabled: true")
+B("t2.cache.enabled", None, "[yaml] t2.cache.enabled: true", soft=1)
 I("t2.cache.max_entries", 0, None, 512, "[msg] t2.cache.max_entries must be >= 0; [dflt] 512")
 I("t2.cache.ttl_s", 0, None, 300, "[msg] t2.cache.ttl_s must be >= 0; [dflt] 300")
-I("t2.cache.ttl_sec", 0, None, None, "[dflt] alias of ttl_s; [msg] path t2.cache.ttl_s", msg="t2.cache.ttl_s")
+I("t2.cache.ttl_sec", 0, None, None, "[dflt] alias of ttl_s; [msg] path t2.cache.ttl_s", msg="t2.cache.ttl_s", al="t2.cache.ttl_s")
 F("t2.ranking.alpha_sim", 0.0, 1.0, 1.0, "[msg] t2.ranking.alpha_sim must be in [0, 1]; [dflt] 1.0", md=0.75)
 F("t2.ranking.beta_recency", 0.0, 1.0, 0.0, "[msg] t2.ranking.beta_recency must be in [0, 1]; [dflt] 0.0", md=0.2)
 F("t2.ranking.gamma_importance", 0.0, 1.0, 0.0, "[msg] t2.ranking.gamma_importance must be in [0, 1]; [dflt] 0.0", md=0.05)
@@ -199,8 +201,8 @@ B("t2.quality.lexical.enabled", None, "[yaml] lexical.enabled")
 F("t2.quality.lexical.bm25_k1", 0.0, None, 1.2, "[msg] t2.quality.lexical.bm25_k1 must be a number >= 0", mx=10.0, md=1.2)
 F("t2.quality.lexical.bm25_b", 0.0, 1.0, 0.75, "[msg] t2.quality.lexical.bm25_b must be a number in [0,1]", md=0.75)
 E("t2.quality.lexical.stopwords", ["none", "en-basic"], "en-basic", "[msg] t2.quality.lexical.stopwords must be one of {\"none\",\"en-basic\"}")
-F("t2.quality.lexical.bm25.k1", None, None, None, "[yaml] bm25: { k1: 1.2 } (number)", mn=0.0, mx=10.0, md=1.2)
-F("t2.quality.lexical.bm25.b", None, None, None, "[yaml] bm25: { b: 0.75 } (number)", mn=0.0, mx=1.0, md=0.75)
+F("t2.quality.lexical.bm25.k1", None, None, None, "[yaml] bm25: { k1: 1.2 } (number)", mn=0.0, mx=10.0, md=1.2, soft=1)
+F("t2.quality.lexical.bm25.b", None, None, None, "[yaml] bm25: { b: 0.75 } (number)", mn=0.0, mx=1.0, md=0.75, soft=1)
 I("t2.quality.lexical.bm25.doclen_floor", 0, None, None, "[msg] t2.quality.lexical.bm25.doclen_floor must be >= 0", mx=10000, md=10)
 B("t2.quality.fusion.enabled", None, "[yaml] fusion.enabled")
 E("t2.quality.fusion.mode", ["score_interp"], "score_interp", "[msg] t2.quality.fusion.mode only \"score_interp\" is supported in PR37")
@@ -208,11 +210,11 @@ F("t2.quality.fusion.alpha_semantic", 0.0, 1.0, 0.6, "[msg] t2.quality.fusion.al
 E("t2.quality.fusion.score_norm", ["zscore", "minmax"], None, "[msg] t2.quality.fusion.score_norm must be one of {zscore,minmax}")
 B("t2.quality.mmr.enabled", None, "[yaml] mmr.enabled")
 F("t2.quality.mmr.lambda", 0.0, 1.0, None, "[msg] t2.quality.mmr.lambda must be in [0,1]", md=0.5)
-F("t2.quality.mmr.lambda_relevance", 0.0, 1.0, None, "[msg] (legacy alias) t2.quality.mmr.lambda must be in [0,1]", md=0.75, msg="t2.quality.mmr.lambda")
+F("t2.quality.mmr.lambda_relevance", 0.0, 1.0, None, "[msg] (legacy alias) t2.quality.mmr.lambda must be in [0,1]", md=0.75, msg="t2.quality.mmr.lambda", al="t2.quality.mmr.lambda")
 B("t2.quality.mmr.diversity_by_owner", None, "[yaml] mmr.diversity_by_owner")
 B("t2.quality.mmr.diversity_by_token", None, "[yaml] mmr.diversity_by_token")
 I("t2.quality.mmr.k", 1, None, None, "[msg] t2.quality.mmr.k must be >= 1", md=8)
-I("t2.quality.mmr.k_final", 1, None, None, "[msg] t2.quality.mmr.k_final must be >= 1", md=8)
+I("t2.quality.mmr.k_final", 1, None, None, "[msg] t2.quality.mmr.k_final must be >= 1 (legacy alias: 'prefer canonical k, fall back to k_final')", md=8, al="t2.quality.mmr.k")
 # ---- t3 -------------------------------------------------------------------------------------
 I("t3.max_rag_loops", 0, 1, 1, "[msg] t3.max_rag_loops must be 0 or 1 (only one-shot supported); [dflt] 1")
 I("t3.max_ops_per_turn", 1, 16, 8, "[msg] t3.max_ops_per_turn must be in [1, 16]; [dflt] 8", md=3)
@@ -256,7 +258,7 @@ B("t4.cache.enabled", True, "[dflt] t4.cache.enabled True")
 L("t4.cache.namespaces", ["t2:semantic"], ["t2:semantic"], "[msg] t4.cache.namespaces must be a list of strings; unknown namespace (allowed: ['t2:semantic']); [yaml] []")
 I("t4.cache.max_entries", 0, None, 512, "[msg] t4.cache.max_entries must be >= 0; [dflt] 512")
 I("t4.cache.ttl_sec", 0, None, 600, "[msg] t4.cache.ttl_sec must be >= 0; [dflt] 600")
-I("t4.cache.ttl_s", 0, None, None, "[dflt] alias of ttl_sec ('user ttl_sec > user ttl_s'); [msg] path t4.cache.ttl_sec", msg="t4.cache.ttl_sec")
+I("t4.cache.ttl_s", 0, None, None, "[dflt] alias of ttl_sec ('user ttl_sec > user ttl_s'); [msg] path t4.cache.ttl_sec", msg="t4.cache.ttl_sec", al="t4.cache.ttl_sec")
 # ---- graph ----------------------------------------------------------------------------------
 B("graph.enabled", False, "[dflt]/[m11] graph.enabled False")
 F("graph.coactivation_threshold", 0.0, 1.0, 0.20, "[msg] graph.coactivation_threshold must be in [0, 1]; [dflt] 0.20", md=0.2)
@@ -362,7 +364,8 @@ def spec_row(i: int) -> Dict[str, Any]:
     row = {"n": f["path"], "k": k, "sec": SEC_INDEX[f["sec"]],
            "hl": int(f["lo"] is not None), "lv": milli(f["lo"]) if k in ("int", "float", "map") else 0, "lx": int(f["lox"]),
            "hh": int(f["hi"] is not None), "hv": milli(f["hi"]) if k in ("int", "float") else 0, "hx": int(f["hix"]),
-           "nul": int(f["nul"]), "soft": int(f["soft"]), "ne": int(f["ne"]), "hm": int(f["md"] is not None)}
+           "nul": int(f["nul"]), "soft": int(f["soft"]), "ne": int(f["ne"]), "hm": int(f["md"] is not None),
+           "al": FI[f["al"]] if f["al"] else 0}
     if k in ("int", "float", "bool"):
         row.update(d=milli(f["dflt"]), hd=int(f["dflt"] is not None), mn=milli(f["mn"]), mx=milli(f["mx"]), md=milli(f["md"]))
     elif k == "enum":
